@@ -24,8 +24,15 @@ inductive RunStmt
   | emitEOF             -- p.emit(EOF{})
   | closeSequences      -- close(p.sequences)
   | signalClosed        -- p.closed <- true
+  | yield (n : Nat)     -- verifSched(p, n)           (round 4: yield point for forced schedules; empty without the build tag)
+  | deferYield (n : Nat)
   | unknown (src : String)
   deriving DecidableEq, Repr, Inhabited
+
+/-- yield points of the verification build (no statement of the program) -/
+def RunStmt.isYield : RunStmt → Bool
+  | .yield _ | .deferYield _ => true
+  | _ => false
 
 /-- Statements of the callback given to `time.AfterFunc` in `anywhere`. -/
 inductive CbStmt
@@ -37,8 +44,15 @@ inductive CbStmt
   | emitEsc             -- p.emit(C0(0x1B))
   | setGround           -- p.state = ground
   | clearIgnoreST       -- p.ignoreST = false
+  | yield (n : Nat)     -- verifSched(p, n)           (round 4)
+  | deferYield (n : Nat) -- defer verifSched(p, n)    (runs after the deferred Unlock; reports a panic of the callback to the harness)
   | unknown (src : String)
   deriving DecidableEq, Repr, Inhabited
+
+/-- yield points of the verification build (no statement of the program) -/
+def CbStmt.isYield : CbStmt → Bool
+  | .yield0 | .deferYield1 | .yield _ | .deferYield _ => true
+  | _ => false
 
 /-- What the program counter of the main goroutine is about to execute: a statement of `run`, or —
     inside the call `p.readRune()` — a statement of `readRune` (`Model/ParserReaderSk.lean`). -/
@@ -85,5 +99,20 @@ def handRunClose : List RunStmt := [.recvCloseBreak]
 def handRunTail : List RunStmt := [.stopTimer, .lock, .bumpGen, .unlock, .emitEOF, .closeSequences, .signalClosed]
 /-- The timer callback (yield points of the verification build aside). -/
 def handCallback : List CbStmt := [.lock, .deferUnlock, .ifGenChangedReturn, .emitEsc, .setGround, .clearIgnoreST]
+
+/-! ### round 4: where the yield points of the forced-schedule harness stand
+
+`verifSched(p, n)` stands in front of the statement the program counter `n` is about to execute
+(`Model/ParserRunSched.lean : mainPoint / cbPoint`); the harness parks the goroutine there. -/
+
+def handRunLoopHeadY : List RunStmt := [.yield 10]
+def handRunDefaultY : List RunStmt :=
+  [.callReadRune, .yield 11, .lock, .yield 12, .bumpGen, .yield 13, .anywhere, .yield 14, .ifNilUnlockBreak, .unlock]
+def handRunTailY : List RunStmt :=
+  [.yield 20, .stopTimer, .yield 21, .lock, .yield 22, .bumpGen, .yield 23, .unlock, .yield 24, .emitEOF, .yield 25,
+   .closeSequences, .signalClosed, .yield 29]
+def handCallbackY : List CbStmt :=
+  [.yield0, .deferYield1, .deferYield 39, .yield 30, .lock, .deferUnlock, .yield 31, .ifGenChangedReturn, .yield 32, .emitEsc,
+   .yield 33, .setGround, .yield 34, .clearIgnoreST]
 
 end VaxisModel.Model.ParserRunSk
